@@ -70,4 +70,26 @@ theorem C03_tables_roundtrip_scalars (g : Bool) (fuel fuel' cls : Nat) (c : Clas
   simp only [classWF, Bool.and_eq_true] at hwf
   exact C03_roundtrip_scalars Gen.dict Gen.classes g fuel fuel' cls c fs additional avps hc hwf.1.1.2 hadd hval hnl hund hgen
 
+/-- …and with list attributes of plain values. -/
+theorem C03_tables_roundtrip_flat (g : Bool) (fuel fuel' cls : Nat) (c : ClassDef)
+    (fs : List (Nat × FVal)) (additional avps : List Avp)
+    (hc : findClass Gen.classes cls = some c) (hadd : c.additional ≠ 0)
+    (hval : ∀ d ∈ c.defs, FlatOK Gen.dict d (fieldOf fs d))
+    (hshape : ∀ d ∈ c.defs, (∀ x, fieldOf fs d = .scalar x → d.isList = false) ∧ (∀ xs, fieldOf fs d = .list xs → d.isList = true))
+    (hund : ∀ a ∈ additional, neededDef c.defs a.code a.vendor = none)
+    (hgen : generateFuel rfcTime Gen.dict Gen.classes (fuel + 1) (.obj cls fs additional) = .ok avps) :
+    ∃ f1, assignFuel (getValue rfcTime g) Gen.dict Gen.classes (fuel' + 1) cls avps = .ok (.obj cls f1 additional) ∧
+      ∀ d ∈ c.defs, fieldOf f1 d = (match fieldOf fs d with
+        | .scalar v => .scalar v
+        | .list xs => .list xs
+        | _ => fieldOf (initFields c) d) := by
+  have hmem : c ∈ Gen.classes := by
+    unfold findClass at hc
+    exact List.mem_of_getElem? hc
+  have hall := C03_tables_wellformed
+  simp only [allClassesWF, Bool.and_eq_true, List.all_eq_true] at hall
+  have hwf := hall.2 c hmem
+  simp only [classWF, Bool.and_eq_true] at hwf
+  exact C03_roundtrip_flat Gen.dict Gen.classes g fuel fuel' cls c fs additional avps hc hwf.1.1.2 hadd hval hshape hund hgen
+
 end DV
